@@ -162,13 +162,18 @@ def check_class(ctx, u, cls, fs, kind):
     for nm in ('touch', 'change_size'):
         for f in byname.get(nm, []):
             body = body_of(f)
-            upd = [x for x in walk(body) if (x.get('kind') == 'CompoundAssignOperator' and canon(x['inner'][0]) == 'this.total_size') or (x.get('kind') == 'CXXMemberCallExpr' and call_name(x) == 'change_item_size')]
+            def is_upd(x):
+                return (x.get('kind') == 'CompoundAssignOperator' and canon(x['inner'][0]) == 'this.total_size') or (x.get('kind') == 'CXXMemberCallExpr' and call_name(x) == 'change_item_size')
+            upd = [x for x in walk_deep(body, u) if is_upd(x)]
             rets = [r for r in walk(body) if r.get('kind') == 'ReturnStmt' and kids(r) and int_value(kids(r)[0]) == 1]
             ok = bool(upd) and bool(rets)
             for r in rets:
                 pre = preceding_statements(r)
-                if not any(any(y is upd[0] for y in walk(s)) for s in pre):
-                    ok = False
+                if not any(is_upd(y) for s in pre for y in walk_deep(s, u)):
+                    # the only way to succeed without touching the sizes: the caller asked to leave the size alone
+                    keep = any(x_ and x_[1] == '<' and nf(x_[2]) == '0' and (ref_decl(x_[0]) or {}).get('kind') == 'ParmVarDecl' for x_ in [relation(n_, p_) for n_, p_ in atoms(path_facts(r))])
+                    if not keep:
+                        ok = False
             ctx.check(ok, R, '%s::%s|size-update-reached' % (lab, nm), rets[0] if rets else f, 'every `return true` is preceded by the size update', 'a successful return skips the size update (e.g. an early return when the entry is already the head): size() no longer equals the sum of the entry sizes')
     er = byname.get('erase', [None])[0]
     if er is not None:
@@ -207,7 +212,7 @@ def check_class(ctx, u, cls, fs, kind):
     R = 'C12-R5'
 
     def touches(f):
-        names = [call_name(c) for c in walk(body_of(f)) if c.get('kind') == 'CXXMemberCallExpr']
+        names = [call_name(c) for c in walk_deep(body_of(f), u) if c.get('kind') == 'CXXMemberCallExpr']
         return 'touch_item' in names or ('unlink_item' in names and 'link_item' in names)
     table = {'set': {'after_emplace': True, 'touch': True, 'change_size': False, 'peek': False, 'size': False, 'count': False},
              'map': {'at': True, 'item_size': False, 'insert': True, 'change_size': True, 'touch': True, 'size': False, 'count': False, 'empty': False}}[kind]
@@ -216,6 +221,21 @@ def check_class(ctx, u, cls, fs, kind):
             t = touches(f)
             ctx.check(t == want, R, '%s::%s#%d|refreshes-recency=%s' % (lab, nm, i, want), f, 'recency %s' % ('refreshed' if want else 'left alone'),
                       '%s::%s %s the entry\'s recency, the documented behaviour is the opposite' % (lab, nm, 'refreshes' if t else 'no longer refreshes'))
+    # ... and refreshes it on every normal exit, not just somewhere in the function: each return is
+    # preceded (on its own path) by a relink or touch
+    for nm, want in sorted(table.items()):
+        if not want:
+            continue
+        for i, f in enumerate(byname.get(nm, [])):
+            for r_ in [x for x in walk(body_of(f)) if x.get('kind') == 'ReturnStmt']:
+                # "no such entry" exits (an out_of_range handler, a failed find) have nothing to refresh
+                absent = enclosing(r_, ('CXXCatchStmt',)) is not None or any(('.end()' in nf(n_) and (('==' in nf(n_)) == bool(pol_))) for n_, pol_ in atoms(path_facts(r_)))
+                if absent:
+                    continue
+                pre = preceding_statements(r_)
+                relinked = any(c.get('kind') == 'CXXMemberCallExpr' and call_name(c) in ('touch_item', 'link_item', 'touch') for s_ in list(pre) + [r_] for c in walk_deep(s_, u))
+                ctx.check(relinked, R, '%s::%s#%d|return@%s-after-relink' % (lab, nm, i, r_.get('_line')), r_, 'the entry is moved to the front before this return',
+                          '%s::%s returns here without having moved the entry to the front (%s): using an entry this way does not refresh its recency and it is evicted as if it were the least recently used' % (lab, nm, src_text(enclosing(r_, ('IfStmt',)) or r_, 70)))
     if kind == 'map':
         for f in byname.get('change_size', []):
             tc = [c for c in walk(body_of(f)) if c.get('kind') == 'CXXMemberCallExpr' and call_name(c) == 'touch_item']
